@@ -75,6 +75,32 @@ func (c *Ctx) RuleEscParity() *Result {
 			}
 			// single neighbour: idx = v - 1
 			if sub, isSub := idx.(*ssa.BinOp); isSub && sub.Op == token.SUB && isByteConst(sub.Y, 1) {
+				// inside the parity helper itself a look at the one byte before the position is a fast path when all
+				// it decides is "not a backslash there, so not escaped" (zero backslashes is an even number) and the
+				// other side goes on to count
+				if _, isPar := sub.X.(*ssa.Parameter); isPar && isEscapedLike(fn) && fnCountsParity(fn) {
+					fast := true
+					branches := condBranches(b)
+					for _, br := range branches {
+						notBackslash := 0
+						if (b.Op == token.EQL) != br.neg {
+							notBackslash = 1
+						}
+						blk := br.iff.Block().Succs[notBackslash]
+						ret, isRet := blk.Instrs[len(blk.Instrs)-1].(*ssa.Return)
+						if !isRet || len(ret.Results) != 1 {
+							fast = false
+							continue
+						}
+						if t, ok := constBool(ret.Results[0]); !ok || t {
+							fast = false
+						}
+					}
+					if fast && len(branches) > 0 {
+						res.ok(key, pos, "fast path of the parity helper: no backslash directly before the position means an even count (zero); the other side counts")
+						return
+					}
+				}
 				res.bad(key, pos, "\"is escaped\" is decided by looking at the one byte before the character: a character after a literal backslash (written \\\\) is taken for escaped although the backslash before it is itself escaped; the repository's parity-counting IsEscaped must be used on this text")
 				return
 			}
